@@ -16,7 +16,7 @@ import re
 
 PROPERTY = "C06"
 LEVEL = "proof"
-LEAN_MODULES = ["Exetera.Props.C06", "Exetera.Witness.C06"]
+LEAN_MODULES = ["Exetera.Props.C06", "Exetera.Witness.C06", "Exetera.Props.C0506"]
 THEOREMS = []
 EXHAUSTIVE = {"quick": True, "thorough": True}
 MODES = {"quick": ["jit"], "thorough": ["jit", "nojit", "bounds"], "search": ["jit", "nojit"]}
@@ -29,7 +29,12 @@ LEVEL_TEXT = ("Proof, for every cell text, category table, chunking and validati
               "accumulate correctly across any chunking), numeric_bool_transform accepts exactly the documented spellings "
               "(stated over the literal table regenerated from the source), the validation-mode table of transform_int/float, "
               "fixed_string_transform keeps the first N bytes, parse_timestamp_bytes yields the UTC POSIX time of every accepted "
-              "layout including written offsets, and all companion columns stay as long as the main column.")
+              "layout including written offsets, and all companion columns stay as long as the main column. Composition with "
+              "C05 (Props/C0506.lean, namespace Props.C05): every importer is an append homomorphism over cell blocks "
+              "(importer_append_homomorphism), the CSV driver feeds each importer exactly consecutive blocks of its column "
+              "(staging_column_encodes ties C05's per-call guarantee to this property's Encodes), hence for any schema, "
+              "chunk_row_size and regrowth the public entry point stores typedSpec(kind, whole column) in every main and "
+              "companion field (read_csv_typed_eq_spec, typed_companions_aligned).")
 LEVEL_NOTE = ("Parameters, not theorems: the text-to-number parsers (Python int()/float(), numpy astype; validation_mode_table holds "
               "for every parser that rejects blank text) and datetime/timezone (CPython's _ymd2ord is mirrored and proved equal to "
               "plain day counting; int() on bytes is modelled executably and compared exhaustively on short texts). The timestamp "
@@ -38,7 +43,11 @@ LEVEL_NOTE = ("Parameters, not theorems: the text-to-number parsers (Python int(
               "by the differential run, not verified against the Python text. Theorems are about the code with fixes D27 (C05), D28, "
               "D29, NC06a, NC06b, NC06c, NC06e, NC06f applied. NC06d (text that is no category, in a categorical column without "
               "free text, is stored as 0) is recorded as found: categorical_exact_match states the stored 0 outright, the "
-              "property-level statement is categorical_property_partial (every cell is a key), witness in Witness/C06.lean.")
+              "property-level statement is categorical_property_partial (every cell is a key), witness in Witness/C06.lean. "
+              "The composed theorem read_csv_typed_eq_spec requires every selected cell to be acceptable to its importer; for "
+              "rejected cells (strict / allow_empty, impossible dates) read_csv_typed_raises_partial proves that import_part raises "
+              "on any block that holds one; the lift through the driver loop is not proved (error classes are compared by the "
+              "csv_typed correspondence).")
 RULE = ("corpus (witnesses of D28, D29, NC06a-f) first; exhaustive: every byte string up to length 3 (quick) / 4 (thorough) over the "
         "bool literal alphabet {t,r,u,e,f,a,l,s,y,n,o,0,1,blank,x} plus all case variants of the accepted spellings, in the three "
         "modes; every subset (size <= 3) of the key pool {'', a, ab, b, ba, abc} against all pool members, strict prefixes/suffixes "
@@ -46,7 +55,10 @@ RULE = ("corpus (witnesses of D28, D29, NC06a-f) first; exhaustive: every byte s
         "strings of length 0..4 against N = 1..3; every integer text of a 45-word grammar (blanks, signs, underscores, exponents, "
         "out of range, empty, garbage) x 3 modes x 8 integer dtypes; every timestamp layout x boundary dates x offsets; then seeded "
         "random columns (up to 40 rows, random chunkings with empty chunks, tables up to 600 key bytes, UTF-8 keys) and CSV-level "
-        "cases through the JSON schema loader. Non-trivial = at least two chunks or an unmatched/invalid/truncated cell; distinct "
+        "cases through the JSON schema loader; csv_typed (shared with checks/harness/c05.py): 160 (quick) / 4000 (thorough) "
+        "mixed typed schemas through the real read_csv_with_schema_dict / read_csv with the smallest supported chunk_row_size "
+        "values (typed columns cross many kernel calls and value-buffer regrowths; categorical cells that are no category "
+        "included), compared with the composed model (CSV driver + importer models) and this oracle. Non-trivial = at least two chunks or an unmatched/invalid/truncated cell; distinct "
         "= distinct case dict.")
 ASSUMPTIONS = ["Python int()/float(), numpy astype(str->number) and datetime/timezone arithmetic are parameters of the theorems "
                "(compared on generated texts, int() and _ymd2ord also modelled)",
@@ -173,6 +185,9 @@ def col_to_model(case, chunks=None):
 
 
 def to_model(case):
+    if case["op"] == "csv_typed":
+        from checks.harness import c05
+        return c05.typed_to_model(case)
     if case["op"] == "c06_col":
         m = col_to_model(case)
         m["op"] = "c06_col"
@@ -550,6 +565,13 @@ def gen_cases(tier, rng):
     cases = list(corpus.load("C06"))
     cases.extend(exhaustive(tier))
     cases.extend(random_cases(tier, rng))
+    # the composition C05 o C06 (op csv_typed, owned by checks/harness/c05.py): mixed typed schemas through the REAL
+    # read_csv_with_schema_dict / read_csv with small chunk_row_size values, compared with the composed Lean model (the CSV
+    # driver feeding the importer models one import_part per kernel call) and with this module's oracle; here also with cells
+    # that are no category (NC06d)
+    from checks.harness import c05
+    cases.extend(c05.typed_regrowth_cases())
+    cases.extend(c05.typed_cases(rng, 160 if tier == "quick" else 4000, allow_unmatched=True))
     return cases
 
 
@@ -632,6 +654,9 @@ def read_col(e, df, col, name="a"):
 
 
 def impl(case):
+    if case["op"] == "csv_typed":
+        from checks.harness import c05
+        return c05.impl(case)
     e = _env()
     np = e["np"]
     if case["op"] == "c06_parse_int":
@@ -895,6 +920,9 @@ def col_spec(col, cells, io):
 def check_spec(case, io, mode):
     if case["op"] == "c06_parse_int":
         return None
+    if case["op"] == "csv_typed":
+        from checks.harness import c05
+        return c05.spec_typed(case, io)
     if case["op"] == "c06_col":
         cells = [unhx(c) for ch in case["chunks"] for c in ch]
         return col_spec(case, cells, io)
@@ -911,6 +939,8 @@ def check_spec(case, io, mode):
 
 def match_finding(case, io, mode):
     """NC06d: a categorical column without free text stores 0 for text that is no category — and nothing else is wrong"""
+    if case["op"] == "csv_typed":
+        return match_typed(case, io)
     cols = [case] if case["op"] == "c06_col" else case.get("cols", [])
     outs = [io] if case["op"] == "c06_col" else (io.get("cols") or [])
     if "err" in io or len(cols) != len(outs):
@@ -928,6 +958,35 @@ def match_finding(case, io, mode):
             return None
         hit = True
     return "NC06d" if hit else None
+
+
+def match_typed(case, io):
+    """NC06d on a csv_typed case: the only thing wrong is that categorical columns without free text hold 0 for cells that are
+    no category; everything else (rows, order, every other column, every matched cell) is as specified"""
+    from checks.harness import c05
+    if "err" in io:
+        return None
+    colcells = c05.typed_columns(case)
+    if colcells is None:
+        return None
+    skip = set()
+    for ci, c in enumerate(case["cols"]):
+        if c["kind"] != "categorical" or c["name"] not in io["fields"]:
+            continue
+        cells = colcells[ci]
+        o = io["fields"][c["name"]]
+        why = col_spec(c, cells, o)
+        if why is None:
+            continue
+        table = {unhx(k["k"]): k["v"] for k in c["cats"]}
+        if not why.startswith("unmatched:") or len(o["data"]) != len(cells) or \
+                any(o["data"][i] != table.get(x, 0) for i, x in enumerate(cells)):
+            return None
+        skip.add(c["name"])
+    if not skip:
+        return None
+    # everything else about the case (rows, order, every other column) must be as specified
+    return "NC06d" if c05.spec_typed(case, io, skip=skip) is None else None
 
 
 # ------------------------------------------------------------------------------------------------------------------
@@ -964,6 +1023,11 @@ def cmp_col(col, io, m):
 
 
 def compare(case, io, mo, mode):
+    if case["op"] == "csv_typed":
+        from checks.harness import c05
+        if "bad" in mo:
+            return f"model driver rejected the case: {mo['bad']}"
+        return c05.compare_typed(case, io, mo)
     if case["op"] == "c06_parse_int":
         return None if io.get("v") == mo.get("ok") else f"int() impl={io.get('v')} model={mo.get('ok')}"
     if case["op"] == "c06_col":
@@ -986,6 +1050,9 @@ def compare(case, io, mo, mode):
 
 # ------------------------------------------------------------------------------------------------------------------
 def nontrivial(case, mo):
+    if case["op"] == "csv_typed":
+        from checks.harness import c05
+        return c05.nontrivial(case, mo)
     if case["op"] == "c06_parse_int":
         return False
     if case["op"] == "c06_csv":
@@ -994,6 +1061,9 @@ def nontrivial(case, mo):
 
 
 def classify(case, mo):
+    if case["op"] == "csv_typed":
+        from checks.harness import c05
+        return c05.classify(case, mo)
     if case["op"] != "c06_col":
         return [case["op"]]
     tags = [case["kind"]]
@@ -1013,4 +1083,6 @@ def classify(case, mo):
 def select_for_mode(case, mode, tier):
     if case["op"] == "c06_parse_int":
         return False
+    if case["op"] == "csv_typed":
+        return case.get("_n", 0) % 7 == 0
     return case.get("_n", 0) % (7 if mode == "nojit" else 11) == 0 or "_corpus" in case
